@@ -16,6 +16,7 @@ enum FontSrc {
     Const(u8, u8),   // height, byte
     Rows(u8),        // height: glyph g row r = g (every byte value in every row position), rows differ by rotation
     BuiltIn(usize),  // ANSI font page
+    EditedDefault,   // the glyphs of the default font under another name, one glyph edited in place (the cached checksum is stale)
     Sauce(usize),    // SAUCE font index
 }
 
@@ -33,6 +34,15 @@ fn make_font(s: &FontSrc) -> Option<BitFont> {
             Some(BitFont::create_8(format!("rows {h}"), 8, *h, &d))
         }
         FontSrc::BuiltIn(p) => BitFont::from_ansi_font_page(*p).ok(),
+        FontSrc::EditedDefault => {
+            let mut f = BitFont::default();
+            f.name = "my font".into();
+            if let Some(g) = f.get_glyph_mut('A') {
+                g.data[2] = 0xFF;
+                g.data[9] ^= 0x3C;
+            }
+            Some(f)
+        }
         FontSrc::Sauce(i) => BitFont::from_sauce_name(SAUCE_FONT_NAMES[*i]).ok(),
     }
 }
@@ -201,9 +211,17 @@ fn check_bitfont(src: &FontSrc, ctx: &mut Ctx) {
     // a slot is redefined within one session: F, then another font of the same height, then F again, then a font of another height
     if !is_psf_magic(&raw) && !is_psf_magic(&other.convert_to_u8_data()) {
         let third = make_font(&FontSrc::Synth(if h == 16 { 14 } else { 16 }, 5)).unwrap();
-        for slot in [0usize, 7] {
+        for slot in [0usize, 7, 9, 11] {
             let mut t = Term::new(Emu::Ansi(0), 80, 25);
             let mut ok = true;
+            // other string-type sequences and text directly before the font: a macro definition and a sixel image (DCS), an OSC (palette,
+            // hyperlink), an APS string - each kind once as the last thing the parser saw
+            match slot {
+                7 => ok &= t.feed_quiet(b"text\x1bP1;0;0!zmacro\x1b\\\x1bPq#1~~\x1b\\\x1b]4;1;rgb:12/34/56\x1b\\\x1b_an application string\x1b\\"),
+                9 => ok &= t.feed_quiet(b"\x1b_an application string\x1b\\\x1b]8;;http://x\x1b\\link\x1b]8;;\x1b\\"),
+                11 => ok &= t.feed_quiet(b"\x1b]4;1;rgb:12/34/56\x1b\\\x1bPq#1~~\x1b\\"),
+                _ => {}
+            }
             for (name, f2) in [("dcs/first upload", &f), ("dcs/second upload to the same slot", &other), ("dcs/third upload to the same slot", &f), ("dcs/upload of another height to the same slot", &third)] {
                 ok &= t.feed_quiet(f2.encode_as_ansi(slot).as_bytes());
                 let got = t.buf.get_font(slot).cloned();
@@ -497,6 +515,7 @@ fn build(_prop: &str, tier: &str) -> Fonts {
     for p in 0..=42usize {
         jobs.push(Job::Bit(FontSrc::BuiltIn(p)));
     }
+    jobs.push(Job::Bit(FontSrc::EditedDefault));
     for i in 0..SAUCE_FONT_NAMES.len() {
         jobs.push(Job::Bit(FontSrc::Sauce(i)));
     }
